@@ -1,7 +1,7 @@
 #!/bin/bash
 # tools/refac_check.sh <patch-dir>... : for each behaviour-preserving refactoring (patch.diff in the dir) apply it
 # to a scratch worktree of /repo HEAD and run ALL 20 checks (or those in $PROPS); any non-zero exit is a false alarm to investigate.
-export GOFLAGS=-mod=mod GOPROXY=off GOSUMDB=off GOTOOLCHAIN=local
+export GOFLAGS="-mod=mod -trimpath" GOPROXY=off GOSUMDB=off GOTOOLCHAIN=local
 here="$(cd "$(dirname "$0")/.." && pwd)"
 (cd "$here/kgv" && go build -o "$here/bin/kgv" ./cmd/kgv) || exit 2
 props="${PROPS:-$(seq -f "C%02g" 1 20)}"
